@@ -5,6 +5,7 @@ of the statement assembler alone; inside a multi-line block comment every line c
 and is collected as comment text, the block ends with the line that contains '*/'."""
 from contracts.base import contract
 from contracts.lib import lexer_flags, parser_constant
+from contracts.lib import PARSE_PROPS
 
 
 def comment_state(G, line, in_block):
@@ -15,7 +16,7 @@ def comment_state(G, line, in_block):
 @contract
 class WholeLineComment:
     fn = "parser.Parser.catch_comment_or_process_line"
-    props = ["C08"]
+    props = PARSE_PROPS
     cases = {"-- comment": dict(marker="--"), "# comment": dict(marker="#")}
 
     def build(G, case):
@@ -30,7 +31,7 @@ class WholeLineComment:
 @contract
 class InsideBlockComment:
     fn = "parser.Parser.catch_comment_or_process_line"
-    props = ["C08"]
+    props = PARSE_PROPS
     cases = {"block continues": dict(ends=False), "block ends": dict(ends=True)}
 
     def build(G, case):
@@ -57,13 +58,17 @@ CODE_START = r"[!$-&(-)+-,.0-<>-~][ !$-&(-)+-,.0-<>-~]*"   # ... and not startin
 
 @contract
 class LineWithoutComment:
-    """a line that holds no comment marker is code as it stands; nothing is recorded as a comment"""
+    """a line that holds no comment marker is code as it stands; nothing is recorded as a comment.  A '#' that is not the
+    first character of the line (after blanks) is part of a name (emp#, #tmp is a comment line only at the start)"""
     fn = "parser.Parser.pre_process_line"
-    props = ["C08", "C03", "C05"]
-    cases = {"code only": {}}
+    props = PARSE_PROPS
+    cases = {"code only": dict(hash=False), "code with # inside a name": dict(hash=True)}
 
     def build(G, case):
-        p = G.parser(lexer=lexer_flags(G), line=G.str("line", CODE, "  qty int NOT NULL,"), multi_line_comment=False,
+        line = G.str("line", CODE, "  qty int NOT NULL,")
+        if case["hash"]:
+            line = G.str("head", CODE_START, "  emp") + "#" + G.str("tail", CODE, " NUMBER(6) NOT NULL,")
+        p = G.parser(lexer=lexer_flags(G), line=line, multi_line_comment=False,
                      comments=G.oseq("comments so far", elem=lambda g, n: g.str(n)), block_comments=[],
                      equal_without_space=parser_constant("equal_without_space"), in_comment=parser_constant("in_comment"))
         return dict(args=[p])
@@ -77,7 +82,7 @@ class TrailingDashComment:
     """code -- text : the line is the code before the marker, the text after it is appended to the comments (in order);
     nothing of the text stays in the line, nothing of the code goes to the comments"""
     fn = "parser.Parser.pre_process_line"
-    props = ["C08", "C03", "C05"]
+    props = PARSE_PROPS
     cases = {"code -- text": {}}
 
     def build(G, case):
